@@ -863,5 +863,335 @@ theorem cellVisible_iff_owner {t : Tree} (h : wfB t = true) {win : Nat} {w : Win
       rw [this] at hu'; cases hu'
     · simp [ho]
 
+
+/-! ### the walk of `_do_restore` against the end of the focus chain -/
+
+theorem ancVis_child {t : Tree} {win c : Nat} {cw : Win} (hc : Live t c cw) (hcp : cw.parent = some win)
+    (hcv : cw.isVisible = true) (hv : AncVis t win) : AncVis t c := by
+  intro x xw hax hx
+  cases hax with
+  | refl => rw [live_unique hx hc]; exact hcv
+  | step hw hp hrest =>
+    rw [live_unique hw hc] at hp; rw [hcp] at hp; cases hp
+    exact hv x xw hrest hx
+
+theorem chainWalk_spec {t : Tree} (h : wfB t = true) : ∀ (fuel win : Nat) (w : Win),
+    t.wins.size < fuel + win → Live t win w → Anc t win 0 → AncVis t win →
+    ∃ e ew, chainWalk fuel t win = .ok e ∧ chainEnd t fuel win = e ∧ Live t e ew ∧ Anc t e 0 ∧ AncVis t e := by
+  intro fuel
+  induction fuel with
+  | zero => intro win w hf hw; have := live_lt hw; omega
+  | succ f ih =>
+    intro win w hf hw h0 hv
+    have hvis : w.isVisible = true := hv win w (.refl _) hw
+    rw [chainWalk]
+    simp only [bind_ok]
+    cases hfc : w.focusedChild with
+    | none =>
+      refine ⟨win, w, ⟨w, get_ok.mpr hw, ?_⟩, ?_, hw, h0, hv⟩
+      · simp [hvis, hfc]; rfl
+      · rw [chainEnd]; rw [hw.1]; simp only [hfc]
+    | some c =>
+      obtain ⟨cw, hcw, hcp, hcv⟩ := wf_focused h hw hfc
+      have hlt := (wf_parent h hcw hcp).1
+      obtain ⟨e, ew, h1, h2, h3, h4, h5⟩ := ih c cw (by omega) hcw (.step hcw hcp h0) (ancVis_child hcw hcp hcv hv)
+      refine ⟨e, ew, ⟨w, get_ok.mpr hw, ?_⟩, ?_, h3, h4, h5⟩
+      · simp [hvis, hfc]; exact h1
+      · rw [chainEnd]; rw [hw.1]; simp only [hfc]; exact h2
+
+theorem chainEnd_some {t : Tree} {win c : Nat} {w : Win} (hw : Live t win w) (hc : w.focusedChild = some c)
+    (f : Nat) : chainEnd t (f + 1) win = chainEnd t f c := by
+  rw [chainEnd]; rw [hw.1]; simp only [hc]
+
+theorem chainEnd_none {t : Tree} {win : Nat} {w : Win} (hw : Live t win w) (hc : w.focusedChild = none)
+    (f : Nat) : chainEnd t (f + 1) win = win := by
+  rw [chainEnd]; rw [hw.1]; simp only [hc]
+
+theorem allVisible_parent {t : Tree} {win p : Nat} {w : Win} (hw : Live t win w) (hp : w.parent = some p)
+    (f : Nat) : allVisible t (f + 1) win = (w.isVisible && allVisible t f p) := by
+  rw [allVisible]; rw [hw.1]; simp only [hp, hw.2]; simp
+
+theorem allVisible_top {t : Tree} {win : Nat} {w : Win} (hw : Live t win w) (hp : w.parent = none)
+    (f : Nat) : allVisible t (f + 1) win = (w.isVisible && w.isRoot) := by
+  rw [allVisible]; rw [hw.1]; simp only [hp, hw.2]; simp
+
+theorem insideAll_parent {t : Tree} {win p : Nat} {w : Win} (hw : Live t win w) (hp : w.parent = some p)
+    (f : Nat) (l c : Int) :
+    insideAll t (f + 1) win l c = (inside w l c && insideAll t f p (l + w.rect.top) (c + w.rect.left)) := by
+  rw [insideAll]; rw [hw.1]; simp only [hp]; rfl
+
+theorem insideAll_top {t : Tree} {win : Nat} {w : Win} (hw : Live t win w) (hp : w.parent = none)
+    (f : Nat) (l c : Int) : insideAll t (f + 1) win l c = inside w l c := by
+  rw [insideAll]; rw [hw.1]; simp only [hp, Bool.and_true]; rfl
+
+/-- The end of the focus chain is a live window below the root (no visibility assumed). -/
+theorem chainEnd_live {t : Tree} (h : wfB t = true) : ∀ (fuel win : Nat) (w : Win),
+    t.wins.size < fuel + win → Live t win w → Anc t win 0 →
+    ∃ ew, Live t (chainEnd t fuel win) ew ∧ Anc t (chainEnd t fuel win) 0 := by
+  intro fuel
+  induction fuel with
+  | zero => intro win w hf hw; have := live_lt hw; omega
+  | succ f ih =>
+    intro win w hf hw h0
+    cases hfc : w.focusedChild with
+    | none => rw [chainEnd_none hw hfc]; exact ⟨w, hw, h0⟩
+    | some c =>
+      rw [chainEnd_some hw hfc]
+      obtain ⟨cw, hcw, hcp, _⟩ := wf_focused h hw hfc
+      have hlt := (wf_parent h hcw hcp).1
+      exact ih c cw (by omega) hcw (.step hcw hcp h0)
+
+theorem allVisible_iff {t : Tree} (h : wfB t = true) : ∀ (fuel win : Nat) (w : Win),
+    win < fuel → Live t win w → Anc t win 0 → (allVisible t fuel win = true ↔ AncVis t win) := by
+  intro fuel
+  induction fuel with
+  | zero => intro win w hf; omega
+  | succ f ih =>
+    intro win w hf hw h0
+    cases hp : w.parent with
+    | none =>
+      rw [allVisible_top hw hp]
+      have := anc_parent_none hw hp h0
+      subst this
+      obtain ⟨r, hr, hroot, _⟩ := wf_root h
+      have hwr := live_unique hw hr
+      subst hwr
+      simp only [hroot, Bool.and_true]
+      constructor
+      · intro hv x xw hax hx
+        cases hax with
+        | refl => rw [live_unique hx hr]; exact hv
+        | step hw' hp' _ => rw [live_unique hw' hw] at hp'; rw [hp] at hp'; cases hp'
+      · intro hv; exact hv 0 w (.refl _) hr
+    | some p =>
+      rw [allVisible_parent hw hp, Bool.and_eq_true]
+      obtain ⟨hlt, _, pw, hpw, _⟩ := wf_parent h hw hp
+      have hiff := ih p pw (by omega) hpw (anc_parent_some h hw hp h0)
+      constructor
+      · intro ⟨hv, hvp⟩ x xw hax hx
+        cases hax with
+        | refl => rw [live_unique hx hw]; exact hv
+        | step hw' hp' hrest =>
+          rw [live_unique hw' hw] at hp'; rw [hp] at hp'; cases hp'
+          exact hiff.mp hvp x xw hrest hx
+      · intro hv
+        exact ⟨hv win w (.refl _) hw, hiff.mpr (ancVis_parent hw hp hv)⟩
+
+theorem upB_insideAll {t : Tree} (h : wfB t = true) : ∀ (fuel win : Nat) (w : Win) (prev : Option Nat) (l c : Int),
+    win < fuel → Live t win w → upB t fuel win prev l c = true → insideAll t fuel win l c = true := by
+  intro fuel
+  induction fuel with
+  | zero => intro win w prev l c hf; omega
+  | succ f ih =>
+    intro win w prev l c hf hw hup
+    cases hp : w.parent with
+    | none =>
+      rw [upB_top hw hp, Bool.and_eq_true] at hup
+      rw [insideAll_top hw hp]; exact hup.1
+    | some p =>
+      rw [upB_parent hw hp, Bool.and_eq_true, Bool.and_eq_true] at hup
+      obtain ⟨hlt, _, pw, hpw, _⟩ := wf_parent h hw hp
+      rw [insideAll_parent hw hp, Bool.and_eq_true]
+      exact ⟨hup.1.1, ih p pw (some win) _ _ (by omega) hpw hup.2⟩
+
+theorem absUp_none (t : Tree) (f : Nat) (g : Rect) : absGeometry.up t (f + 1) none g = .ok g := rfl
+
+theorem absUp_some (t : Tree) (f p : Nat) (g : Rect) :
+    absGeometry.up t (f + 1) (some p) g =
+      (WinTree.get t p >>= fun pw => absGeometry.up t f pw.parent (g.translate pw.rect.top pw.rect.left)) := rfl
+
+/-- `tickit_window_get_abs_geometry` agrees with the specification's translation of a cell. -/
+theorem absUp_spec {t : Tree} (h : wfB t = true) : ∀ (f p : Nat) (pw : Win) (g : Rect) (l c : Int),
+    p < f → Live t p pw →
+    ∃ g', absGeometry.up t (f + 1) (some p) g = .ok g' ∧
+      absCell t f p (l + g.top) (c + g.left) = (l + g'.top, c + g'.left) := by
+  intro f
+  induction f with
+  | zero => intro p pw g l c hf; omega
+  | succ f ih =>
+    intro p pw g l c hf hp
+    rw [absUp_some]
+    simp only [bind_ok]
+    cases hpar : pw.parent with
+    | none =>
+      refine ⟨g.translate pw.rect.top pw.rect.left, ⟨pw, get_ok.mpr hp, ?_⟩, ?_⟩
+      · rw [hpar]; exact absUp_none _ _ _
+      · rw [absCell_top hp hpar]; simp only [Rect.translate]; congr 1 <;> omega
+    | some pp =>
+      obtain ⟨hlt, _, ppw, hppw, _⟩ := wf_parent h hp hpar
+      obtain ⟨g', hg', hcell⟩ := ih pp ppw (g.translate pw.rect.top pw.rect.left) l c (by omega) hppw
+      refine ⟨g', ⟨pw, get_ok.mpr hp, ?_⟩, ?_⟩
+      · rw [hpar]; exact hg'
+      · rw [absCell_parent hp hpar]
+        have e1 : l + g.top + pw.rect.top = l + (g.translate pw.rect.top pw.rect.left).top := by
+          simp only [Rect.translate]; omega
+        have e2 : c + g.left + pw.rect.left = c + (g.translate pw.rect.top pw.rect.left).left := by
+          simp only [Rect.translate]; omega
+        rw [e1, e2]; exact hcell
+
+theorem absGeometry_spec {t : Tree} (h : wfB t = true) {win : Nat} {w : Win} (hw : Live t win w) (l c : Int) :
+    ∃ g, absGeometry t (treeFuel t) win = .ok g ∧
+      absCell t (treeFuel t) win l c = (l + g.top, c + g.left) := by
+  have hsz := live_lt hw
+  unfold absGeometry treeFuel
+  simp only [bind_ok]
+  cases hp : w.parent with
+  | none =>
+    refine ⟨w.rect, ⟨w, get_ok.mpr hw, ?_⟩, ?_⟩
+    · rw [hp]; exact absUp_none _ _ _
+    · exact absCell_top hw hp _ l c
+  | some p =>
+    obtain ⟨hlt, _, pw, hpw, _⟩ := wf_parent h hw hp
+    obtain ⟨g', hg', hcell⟩ := absUp_spec h t.wins.size p pw w.rect l c (by omega) hpw
+    refine ⟨g', ⟨w, get_ok.mpr hw, ?_⟩, ?_⟩
+    · rw [hp]; exact hg'
+    · rw [absCell_parent hw hp]; exact hcell
+
+
+/-! ### `_do_restore` against `cursorSpec` -/
+
+/-- The root window is visible. -/
+def rootVisible (t : Tree) : Bool :=
+  match t.wins[0]? with
+  | some r => r.isVisible
+  | none => false
+
+theorem matches_hidden (c0 : TermCursor) : (c0.applyAll [.vis 0]).matches none = true := by
+  simp [TermCursor.applyAll, TermCursor.apply, TermCursor.matches]
+
+theorem matches_shown (c0 : TermCursor) (l c s : Int) (bl : List TermCall)
+    (hbl : bl = [] ∨ ∃ b, bl = [.blink b]) :
+    (c0.applyAll ([.goto l c, .shape s] ++ bl ++ [.vis 1])).matches (some (l, c, s)) = true := by
+  rcases hbl with hbl | ⟨b, hbl⟩ <;> subst hbl <;>
+    simp [TermCursor.applyAll, TermCursor.apply, TermCursor.matches]
+
+theorem cursorSpec_none_of {t : Tree} {e : Nat} {ew : Win} (he : chainEnd t (treeFuel t) 0 = e) (hw : Live t e ew)
+    (hcond : (ew.isFocused && allVisible t (treeFuel t) e && ew.cursor.visible &&
+       insideAll t (treeFuel t) e ew.cursor.line ew.cursor.col &&
+       (owner t (absCell t (treeFuel t) e ew.cursor.line ew.cursor.col).1
+                (absCell t (treeFuel t) e ew.cursor.line ew.cursor.col).2 == some e)) = false) :
+    cursorSpec t = none := by
+  unfold cursorSpec
+  rw [he, hw.1]
+  simp only [hcond]
+  rfl
+
+theorem cursorSpec_some_of {t : Tree} {e : Nat} {ew : Win} (he : chainEnd t (treeFuel t) 0 = e) (hw : Live t e ew)
+    (hcond : (ew.isFocused && allVisible t (treeFuel t) e && ew.cursor.visible &&
+       insideAll t (treeFuel t) e ew.cursor.line ew.cursor.col &&
+       (owner t (absCell t (treeFuel t) e ew.cursor.line ew.cursor.col).1
+                (absCell t (treeFuel t) e ew.cursor.line ew.cursor.col).2 == some e)) = true) :
+    cursorSpec t = some ((absCell t (treeFuel t) e ew.cursor.line ew.cursor.col).1,
+                         (absCell t (treeFuel t) e ew.cursor.line ew.cursor.col).2, ew.cursor.shape) := by
+  unfold cursorSpec
+  rw [he, hw.1]
+  simp only [hcond]
+  rfl
+
+/-- What `_do_restore` tells the terminal is what the property demands, provided the repair `hiddenRoot` is in or
+    the root window is visible. -/
+theorem doRestore_spec {t : Tree} (h : wfB t = true) (fx : Fixes)
+    (hroot : fx.hiddenRoot = true ∨ rootVisible t = true) {calls : List TermCall}
+    (hd : doRestore fx t = .ok calls) (c0 : TermCursor) :
+    (c0.applyAll calls).matches (cursorSpec t) = true := by
+  obtain ⟨r, hr0, hisroot, hrp⟩ := wf_root h
+  have hfuel : t.wins.size < treeFuel t + 0 := by unfold treeFuel; omega
+  unfold doRestore at hd
+  simp only [bind_ok] at hd
+  obtain ⟨win, hcw, shown, hsh, hd⟩ := hd
+  by_cases hv : r.isVisible = true
+  · -- the root is visible: the walk reaches the end of the chain
+    have hav0 : AncVis t 0 := by
+      intro x xw hax hx
+      cases hax with
+      | refl => rw [live_unique hx hr0]; exact hv
+      | step hw' hp' _ => rw [live_unique hw' hr0] at hp'; rw [hrp] at hp'; cases hp'
+    obtain ⟨e, ew, h1, h2, h3, h4, h5⟩ := chainWalk_spec h (treeFuel t) 0 r hfuel hr0 (.refl 0) hav0
+    rw [h1] at hcw; cases hcw
+    have hev : ew.isVisible = true := h5 win ew (.refl _) h3
+    have hef : win < treeFuel t := Nat.lt_succ_of_lt (live_lt h3)
+    have hall : allVisible t (treeFuel t) win = true := (allVisible_iff h _ win ew hef h3 h4).mpr h5
+    unfold restoreShown at hsh
+    simp only [bind_ok] at hsh
+    obtain ⟨w', hg, hsh⟩ := hsh
+    have hw' : w' = ew := live_unique (get_ok.mp hg) h3
+    subst hw'
+    by_cases hc : (w'.isFocused && w'.cursor.visible) = true
+    · simp only [Bool.and_eq_true] at hc
+      simp only [hev, hc.1, hc.2, Bool.or_true, Bool.and_self, if_true] at hsh
+      rw [cellVisible_iff_owner h h3 h4 h5] at hsh
+      cases hsh
+      by_cases ho : owner t (absCell t (treeFuel t) win w'.cursor.line w'.cursor.col).1
+                            (absCell t (treeFuel t) win w'.cursor.line w'.cursor.col).2 = some win
+      · -- shown
+        simp only [ho, decide_true, if_true] at hd
+        unfold restoreCalls at hd
+        simp only [bind_ok, pure_ok] at hd
+        obtain ⟨w'', hg'', abs, habs, hd⟩ := hd
+        have hw'' : w'' = w' := live_unique (get_ok.mp hg'') h3
+        subst hw''
+        obtain ⟨g, hg1, hg2⟩ := absGeometry_spec h h3 w''.cursor.line w''.cursor.col
+        rw [hg1] at habs; cases habs
+        have hup : upB t (treeFuel t) win none w''.cursor.line w''.cursor.col = true :=
+          own_to_up h _ win win w'' none _ _ hef h3 h4 h5 (.refl _) (fun _ => rfl) (fun q hq => by cases hq)
+            (by rw [← owner_eq_own]; exact ho)
+        have hins := upB_insideAll h _ win w'' none _ _ hef h3 hup
+        have hspec := cursorSpec_some_of h2 h3 (by simp [hc.1, hc.2, hall, hins, ho])
+        rw [hspec, hg2]
+        subst hd
+        apply matches_shown
+        by_cases hb : w''.cursor.blink = -1
+        · left; simp [hb]
+        · right; exact ⟨w''.cursor.blink, by simp [hb]⟩
+      · -- covered, outside or hidden by the composition
+        simp only [ho, decide_false, Bool.false_eq_true, if_false, pure_ok] at hd
+        subst hd
+        rw [cursorSpec_none_of h2 h3 (by simp [ho])]
+        exact matches_hidden c0
+    · have hc' : (w'.isFocused && w'.cursor.visible) = false := by simpa using hc
+      have hcond : ((!fx.hiddenRoot || w'.isVisible) && w'.isFocused && w'.cursor.visible) = false := by
+        rw [Bool.and_assoc, hc']; simp
+      simp only [hcond, Bool.false_eq_true, if_false, pure_ok] at hsh
+      subst hsh
+      simp only [Bool.false_eq_true, if_false, pure_ok] at hd
+      subst hd
+      rw [cursorSpec_none_of h2 h3 (by
+        rw [Bool.and_eq_false_iff, Bool.and_eq_false_iff, Bool.and_eq_false_iff, Bool.and_eq_false_iff]
+        rw [Bool.and_eq_false_iff] at hc'
+        rcases hc' with hc' | hc'
+        · left; left; left; left; exact hc'
+        · left; left; right; exact hc')]
+      exact matches_hidden c0
+  · -- the root is hidden: only the repaired code is covered
+    have hv' : r.isVisible = false := by simpa using hv
+    have hfix : fx.hiddenRoot = true := by
+      rcases hroot with hroot | hroot
+      · exact hroot
+      · simp [rootVisible, hr0.1, hv'] at hroot
+    have hwalk : chainWalk (treeFuel t) t 0 = .ok 0 := by
+      unfold treeFuel; rw [chainWalk]
+      simp only [bind_ok]
+      exact ⟨r, get_ok.mpr hr0, by simp [hv']; rfl⟩
+    rw [hwalk] at hcw; cases hcw
+    unfold restoreShown at hsh
+    simp only [bind_ok] at hsh
+    obtain ⟨w', hg, hsh⟩ := hsh
+    have hw' : w' = r := live_unique (get_ok.mp hg) hr0
+    subst hw'
+    simp only [hfix, hv', Bool.not_true, Bool.or_self, Bool.false_and, Bool.false_eq_true, if_false, pure_ok] at hsh
+    subst hsh
+    simp only [Bool.false_eq_true, if_false, pure_ok] at hd
+    subst hd
+    obtain ⟨ew, he1, he2⟩ := chainEnd_live h (treeFuel t) 0 w' hfuel hr0 (.refl 0)
+    have hef : chainEnd t (treeFuel t) 0 < treeFuel t := Nat.lt_succ_of_lt (live_lt he1)
+    have hnall : allVisible t (treeFuel t) (chainEnd t (treeFuel t) 0) = false := by
+      cases hall : allVisible t (treeFuel t) (chainEnd t (treeFuel t) 0) with
+      | false => rfl
+      | true =>
+        have := (allVisible_iff h _ _ ew hef he1 he2).mp hall 0 w' he2 hr0
+        rw [hv'] at this; cases this
+    rw [cursorSpec_none_of rfl he1 (by simp [hnall])]
+    exact matches_hidden c0
+
 end WinFocus
 end Tickit
